@@ -482,6 +482,14 @@ pub fn run() -> i32 {
                 }
             }
         }
+        for case in 0..=9u8 {
+            crate::sym::load(vec![vec![case]]);
+            n += 1;
+            if std::panic::catch_unwind(|| crate::node::c20_extractor_combos()).is_err() {
+                c11_bad += 1;
+                eprintln!("SELFTEST-FAIL: c20_extractor_combos: case {}", case);
+            }
+        }
         for code in 0..=5u8 {
             crate::sym::load(vec![vec![code]]);
             n += 1;
@@ -493,7 +501,10 @@ pub fn run() -> i32 {
         // call nodes
         for nargs in 0..=3u8 {
             for bits in 0..8u8 {
-                for name in 0..2u8 {
+                for name in [0u8, 1, 3] {
+                    if name == 3 && bits & 1 == 1 {
+                        continue;
+                    }
                     crate::sym::load(vec![vec![nargs], vec![bits & 1], vec![(bits >> 1) & 1], vec![(bits >> 2) & 1], vec![name]]);
                     n += 1;
                     if std::panic::catch_unwind(|| crate::node::c07_call()).is_err() {
